@@ -9,7 +9,7 @@ B=${VERIF_BASELINE_BUILD:-$V/build/baseline}
 mkdir -p "$B"
 cmake -G Ninja -S "$R" -B "$B" -DCMAKE_BUILD_TYPE=RelWithDebInfo -DCMAKE_CXX_FLAGS=-Wno-error >/dev/null
 cmake --build "$B" -j 16 >/dev/null
-n=$(cd "$B/tests/unit" && ./UnitTests --list_content 2>&1 | grep -c '^        ' || true)
+n=$(cd "$B/tests/unit" && ./UnitTests --list_content 2>&1 | grep -c '^    [a-zA-Z]' || true)
 echo "unit test cases listed: $n"
 # 'tests' (tests/tests.py) needs installed binaries and fails in the pinned baseline too (always_fail).
 ctest --test-dir "$B" -R UnitTests --timeout 900 --output-on-failure "$@"
